@@ -67,9 +67,16 @@ def row_tags(buf) -> dict[str, np.ndarray]:
 
 
 def alignment_failures(buf, what, sigbase):
-    tags = row_tags(buf)
-    ref = np.rint(tags["reward"]).astype(int)
+    try:
+        tags = row_tags(buf)
+    except Exception as e:  # fields of different leading shapes cannot even be read as rows
+        shapes = {f: tuple(np.shape(getattr(buf, f))) for f in ("rewards", "observations", "actions", "action_masks") if getattr(buf, f, None) is not None and not isinstance(getattr(buf, f), dict)}
+        return np.zeros((0,), dtype=int), [(f"{sigbase}/fields-have-different-row-shapes", f"{what}: the fields no longer share their leading (row) axes: {shapes} ({type(e).__name__}: {str(e)[:120]})")]
+    ref = np.rint(np.nan_to_num(tags["reward"], nan=-1.0)).astype(int)
     out = []
+    lead = {k: np.shape(v)[: np.ndim(ref)] for k, v in tags.items()}
+    if len(set(lead.values())) > 1:
+        return ref, [(f"{sigbase}/fields-have-different-row-shapes", f"{what}: the fields no longer share their leading (row) axes: {lead}")]
     for k, v in tags.items():
         if k == "mask(mod 8)":
             ok = np.array_equal(v, ref % 8)
